@@ -299,7 +299,7 @@ theorem finalPart_spec (m : Mode) (e : Enc) (h : Params) (ha : Agrees h e) (vers
 `const_add_pc`, special opcode or `copy` is chosen for a line advance `la` and an operation advance
 `oa`, the reader executes it as: one row, line moved by `la`, operation pointer moved by `oa`. -/
 theorem advanceInstrs_trace (m : Mode) (e : Enc) (h : Params) (ha : Agrees h e) (version : Nat)
-    (r : Row) (la : Int) (oa : Nat) (rest : List Instr)
+    (r : Row) (la : Int) (oa : Nat)
     (h1 : -128 ≤ e.lineBase) (h2 : e.lineBase ≤ 0) (hr : 0 < e.lineBase + e.lineRange)
     (hlr : e.lineRange ≤ 243)
     (hla : -(2 ^ 63 : Int) ≤ la ∧ la < 2 ^ 63) (hl : r.line < 2 ^ 64)
@@ -307,7 +307,7 @@ theorem advanceInstrs_trace (m : Mode) (e : Enc) (h : Params) (ha : Agrees h e) 
     (hnt : r.tombstone = false) (hsz : h.addrSize ≤ 8) (hmax1 : 1 ≤ h.maxOps)
     (hidx : r.opIndex < h.maxOps) (hn : r.opIndex + oa < 2 ^ 64)
     (hfit : (advBy h r oa).address ≤ onesSized h.addrSize) :
-    ∃ is, advanceInstrs m e la oa = .ok is ∧
+    ∃ is, advanceInstrs m e la oa = .ok is ∧ ∀ rest : List Instr,
       traceInstrs h r (is.map (WInstr.toInstr version) ++ rest) =
         Ev.row (advBy h { r with line := ((r.line : Int) + la).toNat } oa) ::
           traceInstrs h (reset h (advBy h { r with line := ((r.line : Int) + la).toNat } oa)) rest := by
@@ -406,7 +406,8 @@ theorem advanceInstrs_trace (m : Mode) (e : Enc) (h : Params) (ha : Agrees h e) 
   · unfold advanceInstrs
     rw [hL]
     simp only [hO, hF, Out.bind_ok, Out.pure_eq]
-  · simp only [List.map_append, List.append_assoc, List.map_cons, List.map_nil, List.cons_append,
+  · intro rest
+    simp only [List.map_append, List.append_assoc, List.map_cons, List.map_nil, List.cons_append,
       List.nil_append]
     rw [stepL, stepO]
     exact trace_emit h r2 _ _ _ hxF hnt
